@@ -35,6 +35,10 @@ inductive Th
   | sweeper (now : Nat) (order : List Key) (pc : SPC)
   /-- a connection handler that looks up phantom `k.1` and marks `k` active if it was returned -/
   | handler (k : Key) (tr : Nat) (pc : HPC)
+  /-- one configuration reload (`OnReload`, a single step: it swaps the policy lists under their own
+      mutex and never touches the registry).  The new configuration blocklists the covert address the
+      workers' registrations name; `done` says whether it has run -/
+  | reload (done : Bool)
 deriving Repr
 
 /-- observable events -/
@@ -47,6 +51,7 @@ def Th.done : Th → Bool
   | .ingest _ _ _ _ _ _ .done => true
   | .sweeper _ _ .done => true
   | .handler _ _ .done => true
+  | .reload true => true
   | _ => false
 
 /-- the collected keys, arranged by the preference order -/
@@ -100,6 +105,8 @@ def stepThread (c : Cfg) (s : St) : Th → Option (St × Th × List Ev)
       some (s', .handler k tr .done, if out = .upd then [.annUpd k] else [])
     | .looked false => some (s, .handler k tr .done, [])
     | .done => none
+  | .reload false => some (s, .reload true, [])
+  | .reload true => none
 
 structure World where
   st : St
@@ -107,11 +114,20 @@ structure World where
   evs : List Ev := []
   bad : Bool := false      -- the schedule named a finished or unknown thread
 
+/-- has a reload thread of the world already run? (the policy in force is a function of that) -/
+def reloaded (ths : List Th) : Bool := ths.any (fun t => match t with | .reload true => true | _ => false)
+
+/-- the covert policy is read in the step after `track` (`ParseOrResolveBlocklisted`): a worker that
+takes that step after the reload finds its covert address blocklisted -/
+def applyPolicy (blocked : Bool) : Th → Th
+  | .ingest k tr now cov probe live .afterTrack => .ingest k tr now (cov && !blocked) probe live .afterTrack
+  | t => t
+
 def World.step (c : Cfg) (w : World) (i : Nat) : World :=
   match w.ths[i]? with
   | none => { w with bad := true }
   | some t =>
-    match stepThread c w.st t with
+    match stepThread c w.st (applyPolicy (reloaded w.ths) t) with
     | none => { w with bad := true }
     | some (s', t', ev) => { st := s', ths := w.ths.set i t', evs := w.evs ++ ev, bad := w.bad }
 
